@@ -115,6 +115,35 @@ def gen_literal(rng, kind, fs, derive_trait, bare_p=0.35, extra_names=(), allow_
             info["placeholders"].append(("alias", fi, trait, mods, letter))
         if not bare and rng.random() < 0.3:
             pieces.append(rng.choice(["z", " ", "{{", "}}"]))
+    if not bare and rng.random() < 0.3:
+        # an argument EXPRESSION that starts with a bare field identifier followed by a comparison operator
+        # (`a == b`, `_0 != _0`, `x >= x`): an expression, not `alias = value`; the bool is printed with Display / Debug.
+        # Positional (first / middle / last among the positional arguments) or aliased.
+        fi = rng.randrange(n)
+        same = [j for j in range(n) if fs[j]["t"] == fs[fi]["t"]]
+        fj = rng.choice(same)
+        op = rng.choice(["==", "==", "==", "!=", ">=", "<="])
+        e = "%s %s %s" % (ident_of(kind, fs, fi), op, ident_of(kind, fs, fj))
+        letter = rng.choice(["", "?"])
+        spec = ":" + letter if letter else ""
+        if rng.random() < 0.35:
+            al = "eq"
+            pieces.append(rng.choice([" same: ", "/", ""]) + "{eq%s}" % spec)
+            args.append((al, e, e))
+        else:
+            pos = [a for a in args if a[0] is None]
+            named = [a for a in args if a[0] is not None]
+            at = rng.randrange(len(pos) + 1)
+            # implicit placeholders are numbered in order of appearance: put the new one before the at-th of them
+            impl = [i for i, pc in enumerate(pieces) if re.match(r"^\{\s*[:}]", pc)]
+            piece = "{%s}" % spec
+            if at < len(pos) and len(impl) == len(pos):
+                pieces.insert(impl[at], piece + rng.choice(["/", " "]))
+            else:
+                at = len(pos)
+                pieces.append(rng.choice([" same: ", "/", ""]) + piece)
+            args = pos[:at] + [(None, e, e)] + pos[at:] + named
+        info["placeholders"].append(("cmp_expr", fi, "Debug" if letter else "Display", "", letter))
     # positional args must precede named ones for format_args!
     args = [a for a in args if a[0] is None] + [a for a in args if a[0] is not None]
     info["bare"] = bare and nph == 1
@@ -237,20 +266,30 @@ def gen_enum_case(rng, k, derive_trait, with_flags=False):
     attr_name = F.ATTR_OF[derive_trait]
     nvar = rng.randrange(1, 4)
     rename = rng.choice([None, None, "snake_case", "UPPERCASE", "kebab-case"]) if derive_trait == "Display" else None
-    mode = rng.choice(["none", "default", "wrap_ph", "wrap_ph", "wrap_arg", "wrap_twice", "bare_variant"])
+    mode = rng.choice(["none", "default", "wrap_ph", "wrap_ph", "wrap_arg", "wrap_twice", "bare_variant", "bare_variant", "wrap_field"])
     if derive_trait == "Debug":
         mode = "none"            # an enum-level #[debug("...")] is rejected (C07); variant-level ones are C02/C05's
+    # a bare `_variant` placeholder has three spellings: by name, as the sole positional argument, as an aliased argument
+    bare_lit, bare_args = rng.choice([("{_variant}", []), ("{_variant}", []), ("{}", ["_variant"]), ("{0}", ["_variant"]),
+                                      ("{v}", ["v = _variant"])])
+    # "wrap_field": the enum-level format wraps AND names the first field of every variant itself, under Debug - a trait
+    # the variants' own formats need not use for that field
     shared_lit = {"none": None, "default": rng.choice(["dflt", "dflt", "{{unknown}}", "set: {{}}", "}}a{{", "é {{x}} "]), "wrap_ph": "<{_variant}>", "wrap_arg": "[{}]",
-                  "wrap_twice": "{_variant}/{0}", "bare_variant": "{_variant}"}[mode]
-    shared_args = {"wrap_arg": ["_variant"], "wrap_twice": ["_variant"]}.get(mode, [])
+                  "wrap_twice": "{_variant}/{0}", "bare_variant": bare_lit,
+                  "wrap_field": rng.choice(["{_variant} (raw: {_0:?})", "{_0:?} -> {_variant}", "{1:?}|{0}"])}[mode]
+    shared_args = {"wrap_arg": ["_variant"], "wrap_twice": ["_variant"], "bare_variant": bare_args}.get(mode, [])
+    if mode == "wrap_field" and shared_lit == "{1:?}|{0}":
+        shared_args = ["_variant", "_0"]
     variants = []
     for i in range(nvar):
         vk = rng.choice(["unit", "one", "multi", "named"])
+        if mode == "wrap_field":
+            vk = rng.choice(["one", "one", "multi"])        # every variant needs a `_0`
         vname = ["Alpha", "BetaGamma", "r#Type"][i]
         if vk == "unit":
             kind, fs = "unit", []
         elif vk == "one":
-            kind = rng.choice(["unnamed", "named"])
+            kind = rng.choice(["unnamed", "named"]) if mode != "wrap_field" else "unnamed"
             fs = [{"name": "a" if kind == "named" else None, "t": rng.choice([t for t, (_, _, tr) in TYPES.items() if derive_trait in tr])}]
         else:
             kind, fs = gen_fields(rng, None)
@@ -258,6 +297,10 @@ def gen_enum_case(rng, k, derive_trait, with_flags=False):
                 kind = "named"
                 for j, f in enumerate(fs):
                     f["name"] = f["name"] or ["a", "b", "c"][j]
+            elif mode == "wrap_field":
+                kind = "unnamed"
+                for f in fs:
+                    f["name"] = None
         own = None
         # a variant needs a format of its own when nothing else gives it a text: several fields, a field whose type lacks
         # the derived trait, or (non-Display derives) no field at all - unless the enum-level format is a plain default,
@@ -265,7 +308,9 @@ def gen_enum_case(rng, k, derive_trait, with_flags=False):
         covered = mode == "default"
         need_own = (len(fs) > 1 and not covered) or (len(fs) == 0 and derive_trait != "Display" and not covered) or \
             (len(fs) == 1 and derive_trait not in TYPES[fs[0]["t"]][2])
-        if need_own or derive_trait == "Debug" or rng.random() < 0.4:
+        # (Debug: a variant without a format of its own prints what std's derive prints for it - any mixture and order of
+        #  variants with and without a format)
+        if need_own or rng.random() < (0.5 if derive_trait == "Debug" else 0.4):
             if fs:
                 lit, args, info = gen_literal(rng, kind, fs, derive_trait, bare_p=0.25, allow_self=False)
             else:
@@ -275,8 +320,19 @@ def gen_enum_case(rng, k, derive_trait, with_flags=False):
     # one attribute-less single-field variant may be of a type parameter (its bound has to be inferred by the derive:
     # under a wrapping enum-level format too, where the field is printed through `_variant`)
     generic = None
-    cand = [v for v in variants if len(v["fs"]) == 1 and not v["own"]]
-    if cand and rng.random() < 0.35:
+    cand = [v for v in variants if len(v["fs"]) == 1 and not v["own"]] if derive_trait != "Debug" else []
+    gcand = list(variants) if mode == "wrap_field" else []
+    if gcand and rng.random() < 0.7:
+        # a variant whose first field is of a type parameter, with a format of its own that names `_0` under a trait
+        # other than Debug, while the enum-level format names `_0` under Debug: both bounds are needed on the parameter
+        gv = rng.choice(gcand)
+        t0 = TYPES[gv["fs"][0]["t"]]
+        tr0 = rng.choice([t for t in t0[2] if t not in ("Debug", "Pointer")])
+        l0 = LETTER[tr0]
+        gv["own"] = (rng.choice(["text: {_0%s}", "{_0%s}!", "{_0%s}"]) % (":" + l0 if l0 else ""), [], {"pointer_named": []})
+        generic = t0[0]
+        gv["fs"][0]["ty_override"] = "G"
+    elif cand and rng.random() < 0.35:
         gv = rng.choice(cand)
         generic = TYPES[gv["fs"][0]["t"]][0]
         gv["fs"][0]["ty_override"] = "G"
@@ -307,6 +363,17 @@ def gen_enum_case(rng, k, derive_trait, with_flags=False):
         if v["own"]:
             lit, args, info = v["own"]
             vt = ref_format(lit, args, kind, fs, info["pointer_named"])
+        elif derive_trait == "Debug":
+            # what std's derive prints (compact form): `Name`, `Name(f0, f1)`, `Name { a: f0, b: f1 }`
+            nm = F.unraw(v["name"])
+            if not fs:
+                vt = "String::from(%s)" % F.rust_lit(nm)
+            elif kind == "named":
+                vt = "format!(%s, %s)" % (F.rust_lit(nm + " {{ " + ", ".join("%s: {:?}" % F.unraw(f["name"]) for f in fs) + " }}"),
+                                         ", ".join("__v_%d" % i for i in range(len(fs))))
+            else:
+                vt = "format!(%s, %s)" % (F.rust_lit(nm + "(" + ", ".join("{:?}" for _ in fs) + ")"),
+                                         ", ".join("__v_%d" % i for i in range(len(fs))))
         elif len(fs) == 1:
             vt = "format!(\"{%s}\", __f0)" % (":" + dl if dl else "")
         elif len(fs) == 0:
@@ -314,7 +381,7 @@ def gen_enum_case(rng, k, derive_trait, with_flags=False):
             vt = "String::from(%s)" % F.rust_lit(do_rename(nm, rename) if rename else nm)
         else:
             vt = None
-        wraps = mode in ("wrap_ph", "wrap_arg", "wrap_twice", "bare_variant")
+        wraps = mode in ("wrap_ph", "wrap_arg", "wrap_twice", "bare_variant", "wrap_field")
         if wraps:
             if vt is None:
                 expected = None          # multi-field without attribute: must be rejected at compile time
@@ -332,8 +399,8 @@ def gen_enum_case(rng, k, derive_trait, with_flags=False):
             effective = mode
             if mode == "bare_variant" and derive_trait == "Display":
                 effective = "none"          # a bare `{_variant}` of the derived trait is no attribute at all
-            for sp in rng.sample([x for x in OUTER_SPECS if not any(ch in x for ch in "xXobeE?")], 3):
-                if effective in ("wrap_ph", "wrap_arg", "wrap_twice", "bare_variant"):
+            for sp in rng.sample([x for x in OUTER_SPECS if not any(ch in x for ch in "xXobeE?")], 3 if with_flags is True else int(with_flags)):
+                if effective in ("wrap_ph", "wrap_arg", "wrap_twice", "bare_variant", "wrap_field"):
                     flag_obs.append(("flags-inert:" + sp, sp, expected))
                 elif v["own"]:
                     lit, args, info = v["own"]
@@ -353,7 +420,8 @@ def gen_enum_case(rng, k, derive_trait, with_flags=False):
                     flag_obs.append(("flags-pass:" + sp, sp, "format!(\"{:%s%s}\", %s)" % (sp, letter, inner)))
                 elif effective == "default":
                     flag_obs.append(("flags-inert:" + sp, sp, expected))
-                elif len(fs) == 1:
+                elif len(fs) == 1 and derive_trait != "Debug":
+                    # (a format-less Debug variant is std-like output, whose treatment of the caller's flags is C06's)
                     flag_obs.append(("flags-pass:" + sp, sp, "format!(\"{:%s%s}\", __f0)" % (sp, dl)))
         c.values.append({"val": val, "expected": expected, "variant": v, "flag_obs": flag_obs})
     c.meta["must_fail"] = any(x["expected"] is None for x in c.values)
